@@ -34,7 +34,7 @@ func c05_15(c *core.Ctx, p *core.Prog) {
 		core.EachInstr(fn, func(i ssa.Instruction) {
 			if cl, ok := i.(*ssa.Call); ok {
 				if f := pdataCallee(cl); f != nil && f.Name() == "RemoveIf" {
-					if _, isClo := cl.Call.Args[1].(*ssa.MakeClosure); isClo {
+					if resolveCallback(cl.Call.Args[1]) != nil {
 						rm = cl
 					}
 				}
@@ -45,12 +45,18 @@ func c05_15(c *core.Ctx, p *core.Prog) {
 		}
 		// only splitters whose callback moves elements
 		moves := false
-		if mc, ok := rm.Call.Args[1].(*ssa.MakeClosure); ok {
-			core.EachInstr(mc.Fn.(*ssa.Function), func(i ssa.Instruction) {
-				if cl, ok := i.(*ssa.Call); ok {
-					if f := pdataCallee(cl); f != nil && f.Name() == "MoveTo" {
-						moves = true
-					}
+		if clo := resolveCallback(rm.Call.Args[1]); clo != nil {
+			core.EachInstr(clo, func(i ssa.Instruction) {
+				cl, ok := i.(*ssa.Call)
+				if !ok {
+					return
+				}
+				if f := pdataCallee(cl); f != nil && f.Name() == "MoveTo" {
+					moves = true
+				}
+				// the generic form: MoveTo called through the type parameter's method set
+				if cl.Call.IsInvoke() && cl.Call.Method.Name() == "MoveTo" {
+					moves = true
 				}
 			})
 		}
